@@ -87,8 +87,11 @@ CLAIMS = {
              "lookup_value(lookup_key(s)).string == s; table_string never takes its '' fallback for a key that is in the list; "
              "get_storage_buffers_for_row returns for each column None iff its offset is negative, else the slice "
              "[scale*offset : scale*next present offset or end] with scale 4 iff wide offsets (nested loop invariants, any row "
-             "length) - so both offset encodings read the same cells. Container forms and the row mapping: bounded stand-in only "
-             "(9 rewrites x fixtures, labelled bounded).",
+             "length) - so both offset encodings read the same cells; storage_buffers decodes every row from ITS OWN record (buffer, offsets and "
+             "offset width of the same row record, per-iteration obligation for any tiles and rows); is_iwa_file (C17) and _decompress_all "
+             "(C05) re-verified for chunk boundaries; complete syntactic obligation that the rich-text lookup cannot leave its scan before "
+             "the wanted key. Zip order/method, package form and whole documents: bounded stand-in (11 rewrites x fixtures + a self-written "
+             "large document).",
         note="Assumes: ghost view of TST.TableDataList (entries list + heap fields), protobuf object-store lookups bound to that view, "
              "A-PB for the ListEntry constructor, @cache on add_table (IDX as class invariant), array('h', offsets) identity on int16. "
              "Two genuine defects repaired (fix: commits - entries indexed only while keys ascend; rows matched by counting header "
@@ -103,8 +106,10 @@ CLAIMS = {
              "or exactly the addressed slice removed), num_rows/num_cols move by the count, the grid stays rectangular and EVERY "
              "cell - old, shifted or new - reports its own row and column (nested loop invariants for the renumbering, injectivity "
              "of the grid). Each operation re-establishes the class invariant, hence every finite history does. Document.save "
-             "assigns no cell value/position or grid slot anywhere in its (over-approximated) call graph. write(), defaults, table/"
-             "sheet additions, isolation across tables/documents and save/reopen equality: bounded lock-step reference-grid stand-in.",
+             "assigns no cell value/position or grid slot anywhere in its (over-approximated) call graph. add_row/add_column with a default (any "
+             "value, falsy ones included): Table.write(r, c, default) is called for exactly the cells of the inserted block and no other "
+             "(loop invariants over a ghost call map, grid abstracted away; Table.write itself is C12's contract). Table and sheet "
+             "additions, isolation across tables/documents and save/reopen equality: bounded lock-step reference-grid stand-in.",
         note="Assumes: T-INV+ as class invariant, Cell._empty_cell returns a freshly allocated cell carrying its coordinates (assumed "
              "contract + allocation model), model.number_of_rows/columns only record sizes, default=None in the add_* proofs. One "
              "genuine defect repaired (count validation). Trusted: " + TB,
@@ -147,11 +152,15 @@ CLAIMS = {
              "assumption); _decompress_all yields, for ANY well-framed file, exactly one piece per frame in order - so the decoded "
              "stream does not depend on where it was cut - and raises ValueError exactly when a marker byte is not 0; "
              "IWAArchiveSegment.to_buffer leaves every message_info.length equal to the serialised size of its object (header "
-             "lengths == message sizes), for any number of messages. Inverse property on real archives, unknown fields, merge "
+             "lengths == message sizes), for any number of messages; IWAArchiveSegment.from_buffer (loop invariant over the prefix sums of the "
+             "header's lengths, any number of messages): object k is parsed from payload[offset_k : offset_k + length_k], with the class "
+             "registered for its type or - for a merge message - the patch parser over the class of message_infos[base_message_index], and "
+             "the remainder starts after the last message. Inverse property on real archives, unknown fields, merge "
              "segments, snappy-shaped blocks: bounded stand-in over ~5 270 fixture archives and synthetic ones.",
         note="Assumes: A-SNAPPY (compression bound; compress/uncompress opaque functions of the piece), A-PB (serialised length a "
              "function of the object; Parse/Serialize inverse - exercised only by the bounded corpus run), ghost views for bytes and "
-             "piece lists, well-framedness as precondition of _decompress_all. from_buffer/segment parsing: bounded only. Trusted: " + TB,
+             "piece lists, well-framedness as precondition of _decompress_all; in from_buffer the header decoder, the type-to-class table and the "
+             "protobuf parsers are uninterpreted (which bytes and which class reach them is what is proved). Trusted: " + TB,
         technique="contract-based deductive verification (loop invariants over stream positions, Skolem frame positions) + bounded corpus/synthetic stand-in"),
     "C08": dict(
         category="other", design="DESIGN.md section 7 C08",
@@ -170,7 +179,9 @@ CLAIMS = {
         text="Mixed. Proved (contract-based, real model.py/xrefs.py, all integers/strings): node_to_ref resolves each coordinate to the "
              "stored value if absolute and host + stored offset if relative, copies the '$' bits and keeps begin/end unswapped (cell nodes, "
              "relative/absolute rectangle tracts with and without range_end); expand_ref's qualification is '' / 'T::' / 'S::T::' by the "
-             "property's cases; _format_cell_range is prefix + A1(start)[:A1(end)] over xl_rowcol_to_cell's C10 contract; lemma RESOLVE: for "
+             "property's cases; _initialize_table_data decides name uniqueness over model.table_names(), i.e. every table of the document (dataflow "
+             "contract); Table.write invalidates the header-label cache exactly for writes into the header area (C12's contract re-verified); "
+             "_format_cell_range is prefix + A1(start)[:A1(end)] over xl_rowcol_to_cell's C10 contract; lemma RESOLVE: for "
              "any number of sheets/tables with sibling-unique names the chosen qualification resolves to the stored table only and no "
              "shorter one does. Header labels, whole-row/column tracts, cross-table UUID lookup, quoting, and rename/relabel histories: "
              "bounded stand-in with an independent resolver, so the level is not 'proof'.",
@@ -219,7 +230,9 @@ CLAIMS = {
              "(lemmas ALIGNED/INCREASING/INT16), cell_count exact; the tile loop of recalculate_table_data (nested loop invariants, any "
              "number of rows): consecutive tile ids, every row exactly once in tile r>>8 at position r&255, declared == stored row counts, "
              "each tile a fresh object with a metadata entry; complete syntactic check that every object created in a new archive file "
-             "is passed to add_component_metadata with the matching locator. Reference closure and whole-package structure: bounded "
+             "is passed to add_component_metadata with the matching locator, and that every identifier create_object_from_dict returns is made the "
+             "target of a reference (no orphan objects: what was meant to point at a new object cannot silently keep pointing at the object it "
+             "was cloned from). Reference closure and whole-package structure: bounded "
              "stand-in with an independent validator - it reports one open known finding, so the level is not 'proof'.",
         note="Assumes ghost records for protobuf messages and the store dicts, C04's record-length facts, <= 1000 columns. Open known finding "
              "F-C07-1 (null category_owner reference in tables the library creates; deliberate in the source). Trusted: " + TB,
@@ -233,7 +246,12 @@ CLAIMS = {
              "add_stroke stamps the stroke with the freshly incremented max_order and that Table.set_cell_border orders the stroke before "
              "any cell is updated; lemma LAST-WRITER-WINS over these contracts; Style.__setattr__ for each of the 16 attributes (value stored, "
              "text/cell update marks set exactly for text/cell attributes); Style.from_storage returns the accessors' values with neither mark "
-             "set (reading never schedules a save); complete ground checks: all 256 colour channel values survive the stored c/255 form, "
+             "set (reading never schedules a save); model.add_stroke: the stroke gets max_order+1, a line without a layer gets a new layer "
+             "holding exactly the new stroke, and for a line with runs a per-run cut assertion proved for ANY run and ANY new stroke: an "
+             "existing run never gains a cell, never loses a cell outside the new stroke, pieces split off it are copies of it, it is replaced "
+             "only by a full copy of the new stroke when the new stroke covers it, and the new stroke ends up in the list; complete ground/"
+             "syntactic checks: the key that decides which cells share a saved cell style reads every cell-level attribute; all 256 colour "
+             "channel values survive the stored c/255 form, "
              "font family and name tables are mutually inverse. Stroke runs in the file, style archives, merged cells and reload: bounded "
              "stand-in with a last-writer-wins edge model, so the level is not 'proof'.",
         note="Assumes Border/CellBorder as heap records, cell_for_stroke uninterpreted, dataclass init through __setattr__. Genuine defects "
@@ -249,7 +267,8 @@ CLAIMS = {
              "recalculate_column_headers likewise with col_width(c) - floor(border allowance) (two loops, widths collected before the stored "
              "headers are cleared); lemma GEOMETRY-STABLE over the reader's formula floor(round(s)+b): the written size reads back as the same "
              "height for every allowance b >= 0 and a second cycle writes the same size (no drift), with a vacuity guard showing the pinned "
-             "writer drifts. The readers' float arithmetic, names, captions, header counts, coordinates and whole documents over 1..3 cycles: "
+             "writer drifts; complete syntactic obligation (shared with C07) that every object add_table creates is made the target of a reference, so a "
+             "new table has its own header storage. The readers' float arithmetic, names, captions, header counts, coordinates and whole documents over 1..3 cycles: "
              "bounded stand-in, so the level is not 'proof'.",
         note="Assumes ghost records for protobuf header lists and session caches, sizes as integers, floor(border allowance) uninterpreted. Genuine "
              "defect repaired: fix: commit 08975f9 (unqueried row heights were written as 0.0 = default; sizes of bordered rows/columns grew on "
@@ -260,14 +279,17 @@ CLAIMS = {
         category="other", design="DESIGN.md section 7 C14",
         text="Mixed. Proved (contract-based, real cell.py): _auto_units for every whole number of seconds (largest = largest unit reached, smallest = "
              "coarsest unit dividing the value but not coarser than the largest, zero shows days); _unit_format for every value and style and "
-             "each of the six units. Complete ground checks: each directive lambda of DATETIME_FIELD_MAP reads only the field its documented "
-             "meaning depends on (syntactic, whole table) and renders the documented value, range and padding over that field's whole domain "
-             "(exhaustive for clock fields: 24 hours, 60 minutes, 60 seconds; for date fields every day of 33 years incl. the century years "
-             "1700..2400 and both ends of the range - a sample of the date domain; sampled years and sub-seconds); "
-             "format validation uses the same table. The format parser (_decode_date_format: literals, quotes, concatenation) and "
-             "_duration_format (float division per unit) are not under contract: bounded stand-in with an independent oracle and a "
-             "display-parse-back check, so the level is not 'proof'.",
-        note="Genuine defects repaired: fix: commits d3185f4 (k/kk printed 124 for 10:00), 2615b0e (automatic units for whole weeks), 6291058 "
+             "each of the six units; the format parser _decode_date_format for EVERY format string: it terminates and raises nothing (loop "
+             "invariant + decreases), and for five families of formats of unbounded length the result is the concatenation of the parts - pure "
+             "literal text passes through unchanged, quoted text passes through unchanged (letters included), a single directive renders as "
+             "that directive, directive + escaped quote renders in that order (the repaired defect), directive + literal + directive renders "
+             "in that order. Complete ground checks: each directive lambda of DATETIME_FIELD_MAP reads only the field its documented meaning "
+             "depends on (syntactic, whole table) and renders the documented value, range and padding over that field's domain (exhaustive "
+             "for clock fields; every day of 33 years incl. century years for date fields - a sample of the date domain); format validation "
+             "uses the same table. Arbitrary compositions of parts and _duration_format (float division per unit) are a bounded stand-in with "
+             "an independent oracle and a display-parse-back check, so the level is not 'proof'.",
+        note="str.isalpha on one character is uninterpreted except that the quote is not a letter; _decode_date_format_field total by assumption. "
+             "Genuine defects repaired: fix: commits d3185f4 (k/kk printed 124 for 10:00), 2615b0e (automatic units for whole weeks), 6291058 "
              "(escaped quote emitted before the pending directive), e49d46d (documentation of y). Trusted: " + TB,
         technique="contract-based deductive verification of the unit selection/labelling functions + complete per-field ground evaluation of the "
                   "directive table + bounded composition / duration parse-back stand-in (mixed)"),
@@ -291,7 +313,9 @@ CLAIMS = {
              "main() runs every Converter call inside the handler that prints one line to stderr and exits with status 1, the float coercion is "
              "guarded by math.isfinite, the CSV file is opened with newline='', next() has a default. Proved (contract-based, real "
              "_cat_numbers.py): cell_as_string exports a number cell through the 15-digit rounding, an empty cell as '', an error cell as '#REF!', "
-             "any other cell as str(value). The grid round trip (text identical, numbers numerically equal, special floats stay text, "
+             "any other cell as str(value); Converter.save (nested loop invariants over a ghost call map, any number of rows and any row lengths) calls "
+             "Table.write(r, c, value) for every cell of the grid with the value at that position - blank cells too - and for nothing else, then "
+             "saves once. The grid round trip (text identical, numbers numerically equal, special floats stay text, "
              "--no-header/--whitespace/--reverse) is decided by a bounded stand-in with Python's csv module as the reference: no contract "
              "within reach expresses it (csv module, float() parsing of arbitrary spellings, document round trip).",
         note="Open known finding F-C20-1 (repeated header cells collapse columns; a repair is a redesign of the row representation). Genuine defects "
